@@ -6,7 +6,9 @@ Executable lock-granularity model of
                                StopWatches, GetWatches)
   internal/engine/source.go   (StoppableSource.Start / Stop)
   internal/engine/cache.go    (InformerTrackingCache: ActiveInformers, GetInformer,
-                               RemoveInformer — each a single linearisable step, see below)
+                               RemoveInformer — each a single linearisable step, see below;
+                               Model/C13Cache.lean models its lock dance step by step and
+                               Proofs/C13j.lean proves that it is atomic)
   internal/controller/apiextensions/composite/watch/watch.go (GarbageCollectWatchesNow)
 
 Every goroutine that calls into the engine is a `Thread` with a program counter
@@ -39,6 +41,10 @@ requested while it is held, so each is a single step here.
 fixes/D3.diff and fixes/D12.diff applied (this is what the theorems are about and what
 the correspondence driver runs); `Cfg.asFound` mirrors the pinned commit and is kept only
 for the negation witnesses.
+
+Model/C13Skel.lean ties every step of `next` to the control-flow skeleton of the Go function it
+mirrors (regenerated from the source on every run): the lock operations are derived there from
+`Pc.held`, so reordering the cases below or the Go code breaks a `trace_…` obligation.
 -/
 namespace Xp.C13
 
@@ -380,7 +386,7 @@ def next (cfg : Cfg) (s : Sys) (i : Nat) (t : Thread) (ch : Choice) : Option (Pc
     | .cacheRead g =>                             -- c.active[gvk] = true; c.Cache.Get / List / GetInformerForKind
       some (.done (if ch.fault then .err else .ok), .getInformer g ch.fault)
   | .relE r => some (.done r, .nop)
-  | .relCE cid r => some (.relE r, .nop)
+  | .relCE _ r => some (.relE r, .nop)
   | .relC _ r => some (.done r, .nop)
   -- Start
   | .stNC n =>                                    -- co.nc(name, e.mgr, co.runtime); e.controllers[name] = r
